@@ -1,8 +1,112 @@
 import PyPhysim.Model.Proto
-open PyPhysim.Proto
+import PyPhysim.Model.C07
+open PyPhysim.Proto PyPhysim.C07
+open PyPhysim.C05 (Outcome Keep Stored Saved VarState)
 
--- stub: replaced when the C07 model is written
+/-!
+Line-protocol driver of the C07 model.
+
+`resume mode=atomic period=500 secs=300 keep=always;sumlt:5 n1=2 rm1=3 tags1=0,1 outs1=1,s,2 clk1=0,0,301
+        n2=2 rm2=3 tags2=0,1 outs2=1,1 clk2= pts=all|0,3,7`
+
+Run 1 starts on an empty disk with the outcome stream `outs1` (`s` = SkipThisOne,
+an integer `a` = a result with sum `a` and token `2^position`), call durations
+`clk1`.  For every requested crash point `m` (number of events of run 1 that
+happened) the reply lists the disk after the crash, and the complete run 2
+(`outs2`, tokens `2^(|outs1| + position)`) started on that disk.
+-/
+
+/-- results used by the harness script: a SUMTYPE sum and a SUMTYPE token -/
+structure Res where
+  sum : Int
+  tok : Nat
+
+def Res.merge (a b : Res) : Res := ⟨a.sum + b.sum, a.tok + b.tok⟩
+
+def parseOuts (s : String) (off : Nat) : Option (List (Outcome Res)) :=
+  (fields s ",").zipIdx.mapM (fun (t, c) =>
+    if t = "s" then some Outcome.skip else t.toInt?.map (fun a => Outcome.ok ⟨a, 2 ^ (off + c)⟩))
+
+def parseRule (s : String) : Option (Keep Res) :=
+  match s.splitOn ":" with
+  | ["always"] => some (fun _ _ _ => true)
+  | ["sumlt", t] => t.toInt?.map (fun t => fun acc _ _ => decide (acc.sum < t))
+  | ["replt", k] => k.toNat?.map (fun k => fun _ _ r => decide (r < k))
+  | ["skiplt", k] => k.toNat?.map (fun k => fun _ sk _ => decide (sk < k))
+  | _ => none
+
+def parseKeep (s : String) : Option (Nat → Keep Res) := do
+  let rules ← (fields s ";").mapM parseRule
+  if rules.isEmpty then none else
+  some (fun i => rules.getD (i % rules.length) (fun _ _ _ => true))
+
+def parseMode : String → Option Mode
+  | "atomic" => some .atomic
+  | "inplace" => some .inPlace
+  | _ => none
+
+def showFile {C} (f : C → String) : Slot C → String
+  | ⟨.absent, t⟩ => "A" ++ (if t then "+t" else "")
+  | ⟨.torn, t⟩ => "T" ++ (if t then "+t" else "")
+  | ⟨.valid c, t⟩ => "V" ++ f c ++ (if t then "+t" else "")
+
+def showPart (p : Part Res Nat) : String :=
+  s!"{p.saved.rep}.{p.saved.skipped}.{p.saved.acc.sum}.{p.saved.acc.tok}.{p.tag}"
+
+def showStored (s : Stored Res) : String := s!"{s.acc.sum}.{s.acc.tok}.{s.skipped}"
+
+def showFull (f : Full Res) : String :=
+  showList toString f.reps ++ "/" ++ showList showStored f.results "_"
+
+def showDisk (n : Nat) (d : Disk Res Nat) : String :=
+  showList (fun i => showFile showPart (d.part i)) (List.range n) "|" ++ "|F:" ++ showFile showFull d.fin
+
+def showStatus : Option PyPhysim.C07.Err → String
+  | none => "ok"
+  | some e => toString e
+
+def opKind {C} : SlotOp C → String
+  | .trunc => "trunc" | .write _ => "write" | .tmpOpen => "tmpOpen" | .tmpWrite => "tmpWrite"
+  | .rename _ => "rename"
+
+def evKind : Ev Res Nat → String
+  | .call _ => "call"
+  | .part _ op => opKind op
+  | .fin op => "F" ++ opKind op
+
+def handleResume (toks : List String) : Option String := do
+  let mode ← parseMode ((kv toks "mode").getD "atomic")
+  let period ← (kv toks "period").bind String.toNat?
+  let secs ← (kv toks "secs").bind String.toNat?
+  let keep ← parseKeep ((kv toks "keep").getD "always")
+  let n1 ← (kv toks "n1").bind String.toNat?
+  let rm1 ← (kv toks "rm1").bind String.toNat?
+  let tags1 ← parseNatList? ((kv toks "tags1").getD "")
+  let outs1s := (kv toks "outs1").getD ""
+  let outs1 ← parseOuts outs1s 0
+  let clk1 ← parseNatList? ((kv toks "clk1").getD "")
+  let n2 ← (kv toks "n2").bind String.toNat?
+  let rm2 ← (kv toks "rm2").bind String.toNat?
+  let tags2 ← parseNatList? ((kv toks "tags2").getD "")
+  let outs2 ← parseOuts ((kv toks "outs2").getD "") outs1.length
+  let clk2 ← parseNatList? ((kv toks "clk2").getD "")
+  let cfg1 : PyPhysim.C07.Cfg Res Nat := ⟨Res.merge, rm1, n1, keep, fun i => tags1.getD i 0, period, secs, mode⟩
+  let cfg2 : PyPhysim.C07.Cfg Res Nat := ⟨Res.merge, rm2, n2, keep, fun i => tags2.getD i 0, period, secs, mode⟩
+  let nshow := max n1 n2
+  let e1 := simC cfg1 Disk.empty ⟨0, clk1⟩ outs1
+  let total := e1.trace.length
+  let ptsS := (kv toks "pts").getD "all"
+  let pts ← if ptsS = "all" then some (List.range (total + 1)) else parseNatList? ptsS
+  let one (m : Nat) : String :=
+    let pre := e1.trace.take m
+    let d1 := crashDisk Disk.empty e1.trace m
+    let e2 := simC cfg2 d1 ⟨0, clk2⟩ outs2
+    let d2 := d1.applyAll e2.trace
+    s!"m={m} calls1={(callLog pre).length} crash={showDisk nshow d1} st={showStatus e2.status} log={showList toString (callLog e2.trace)} reps={showList toString e2.reps} res={showList showStored e2.results "_"} disk={showDisk nshow d2}"
+  some (s!"N={total} st1={showStatus e1.status} reps1={showList toString e1.reps} kinds={showList evKind e1.trace} ; " ++ " ; ".intercalate (pts.map one))
+
 def handle : List String → String
+  | "resume" :: toks => (handleResume toks).getD "bad-op"
   | _ => "bad-op"
 
 def main : IO Unit := runDriver handle
